@@ -147,10 +147,9 @@ def random_item(rng, depth=0, max_depth=4, budget=None):
 
 
 def nested(depth, leaf=0, kind="array"):
-    x = leaf
-    for _ in range(depth):
-        x = [x] if kind == "array" else (M([(1, x)]) if kind == "map" else Tag(1, x))
-    return x
+    """depth nested one-element arrays / one-entry maps / tags around leaf (as raw bytes: no recursion)"""
+    unit = {"array": b"\x81", "map": b"\xa1\x01", "tag": b"\xc1"}[kind]
+    return Raw(unit * depth + cbor.enc(leaf))
 
 
 # ------------------------------------------------------------------ byte-level
